@@ -172,13 +172,16 @@ def _conv(x, kind):
 
 def _lossy(src, dst):
     """float64 -> float32 (or lower) conversion while the harness asked for rounding to be modelled"""
-    if src is None or dst is None or not (src.is_floating_point and dst.is_floating_point) or dst.bits >= src.bits:
+    if src is None or dst is None or not (src.is_floating_point and dst.is_floating_point) or dst.bits == src.bits:
         return False
     try:
         import torch
-        return bool(torch.KERNELS.get("lossy_casts"))
+        mode = torch.KERNELS.get("lossy_casts")
     except Exception:  # noqa
         return False
+    # True: down-casts only.  "both": ANY change of floating dtype - a value that was computed in float32 and is then widened carries float32
+    # rounding into a float64 computation (only used by harnesses whose unchanged code performs no such conversion at all)
+    return bool(mode) and (dst.bits < src.bits or mode == "both")
 
 
 def _round_to(x, dst):
@@ -563,6 +566,14 @@ class Arr:
         return _stack(pieces, d)
 
     def __setitem__(self, idx, val):
+        if isinstance(idx, Arr) and idx.kind == "bool":
+            # boolean-mask assignment of a scalar: x[mask] = v
+            if tuple(idx.shape) != tuple(self.shape) or isinstance(val, Arr) and val.numel() != 1:
+                raise ShimUnsupported("boolean-mask assignment of a non-scalar")
+            v = val._as_scalar() if isinstance(val, Arr) else val
+            cur = self._flat()
+            self._write([(v if bool(_to_bool(mk)) else x) for mk, x in zip(idx._flat(), cur)])
+            return
         target = self[idx]
         if isinstance(val, Arr):
             if type(val) is not type(self):
@@ -1331,6 +1342,8 @@ def _from_data(cls, data, dtype=None):
     kinds = {_kind_of(x) for x in flat} or {"real"}
     order = {"bool": 0, "int": 1, "real": 2}
     kind = max(kinds, key=lambda k: order[k])
+    if dtype is not None and kind == "real" and dtype.is_floating_point:
+        return cls._make(flat, shape, dtype, kind)  # python numbers are created directly in the requested dtype: no conversion takes place
     r = cls._make(flat, shape, None, kind)
     if dtype is not None:
         r = r._cast(dtype)
